@@ -373,6 +373,8 @@ def _verify_function(self, cname):
     self.cur_func = cname
     self.abstract = tuple(c.abstract)
     self.total_fdiv = bool(c.total_float_division)
+    self.light_trig = bool(c.light_trig)
+    self.materialize = bool(c.materialize)
     if self.total_fdiv:
         self.assumptions_used.add("in %s floating-point division is total (IEEE: x/0 is inf or nan, no trap): no division-safety "
                                   "obligations; a quotient by zero is an unspecified real" % cname)
@@ -413,6 +415,10 @@ def _verify_variant(self, f, c, var, vi, info):
     st0 = State()
     for ax in PI_AXIOMS:
         st0.pc.append(ax)
+    from .nplib import LIBM_AXIOMS
+    for nm in c.libm_axioms:
+        st0.pc.append(LIBM_AXIOMS[nm]())
+        self.assumptions_used.add("libm axiom %s (assumed): %s" % (nm, LIBM_AXIOMS[nm].__doc__))
     if len(c.variants or []) > 1:
         st0.path.append("variant%d" % vi)
     # default values of parameters not typed by the contract
